@@ -174,7 +174,7 @@ func (w *c18World) stale(kind string) *x509.RevocationList {
 var c18Events = []string{"fetch", "server-publishes-newer", "cache:=fresh(old version)", "cache:=fresh-with-delta", "cache:=base-expired", "cache:=delta-expired", "cache:=both-expired", "cache:=base-without-nextupdate",
 	"cache:=empty", "next-get-fails", "next-set-fails", "next-base-download:transport-error", "next-base-download:404", "next-base-download:garbage", "next-delta-download-fails@0", "next-delta-download-fails@1", "next-delta-download-fails@all",
 	"cache:=empty(miss reported as a wrapped ErrCacheMiss)", "next-base-download:caller-cancels-when-it-has-been-answered",
-	"cache:=the-base-the-server-still-serves+expired-delta", "next-get-fails-while-handing-back-its-entry", "next-get-reports-a-miss-while-handing-back-its-entry"}
+	"cache:=the-base-the-server-still-serves+expired-delta", "next-set-fails(error wraps ErrCacheMiss)", "next-get-fails-while-handing-back-its-entry", "next-get-reports-a-miss-while-handing-back-its-entry"}
 
 type c18Scenario struct {
 	cache   bool
@@ -198,7 +198,7 @@ func c18Scenarios(tier mc.Tier) []mc.Scenario {
 				// without a cache the cache events do nothing: keep only the ones that matter
 				var e []string
 				for _, ev := range c18Events {
-					if !strings.HasPrefix(ev, "cache:=") && !strings.HasPrefix(ev, "next-get-") && ev != "next-set-fails" {
+					if !strings.HasPrefix(ev, "cache:=") && !strings.HasPrefix(ev, "next-get-") && !strings.HasPrefix(ev, "next-set-fails") {
 						e = append(e, ev)
 					}
 				}
@@ -260,6 +260,7 @@ func (s *c18Scenario) body(c *mc.Ctx) {
 	var reqs []string
 	missWrapped := false
 	getFaultKeepsEntry, getMissKeepsEntry := false, false
+	setFaultWrapsMiss := false
 	var cancelFetch context.CancelFunc // cancels the context of the fetch in progress
 	tr := &netsim.Transport{}
 	tr.Handler = func(r *netsim.Request, raw *http.Request) netsim.Answer {
@@ -347,6 +348,11 @@ func (s *c18Scenario) body(c *mc.Ctx) {
 			if setFault {
 				setFault = false
 				cacheOps[len(cacheOps)-1] = "set-fails"
+				if setFaultWrapsMiss {
+					// a write failure is a write failure, whatever it wraps (here: the inner tier's lookup miss)
+					setFaultWrapsMiss = false
+					return fmt.Errorf("netsim: cache write failed, backing tier lost the entry: %w", corecrl.ErrCacheMiss)
+				}
 				return errors.New("netsim: cache write failed")
 			}
 			entry = newC18Bundle(b, true, "stored-by-fetch")
@@ -399,6 +405,8 @@ func (s *c18Scenario) body(c *mc.Ctx) {
 			getMissKeepsEntry = true
 		case ev == "next-set-fails":
 			setFault = true
+		case ev == "next-set-fails(error wraps ErrCacheMiss)":
+			setFault, setFaultWrapsMiss = true, true
 		case strings.HasPrefix(ev, "next-base-download:"):
 			baseFault = strings.TrimPrefix(ev, "next-base-download:")
 		case ev == "next-delta-download:32MiB":
